@@ -14,14 +14,24 @@ package otlpmetricgrpc
 
 // first RetryInfo detail of the status, if any (protobuf Any decoding is external)
 // "carries retry info" means: a RetryInfo detail is PRESENT (whatever delay it asks for, zero included); without one: (false, 0)
+//@ ghost var riSeen int
 //@ func throttleDelay(s *status.Status) (ok bool, d time.Duration)
 //@   pure
 //@   unchecked frame,no-panic walks protobuf status details (external library types); used by callers as a deterministic function of the status
 //@   assert@return#1 : $ret0
 //@   assert@return#2 : !$ret0 && $ret1 == 0
+// the first RetryInfo detail ends the search, whatever delay it carries (zero included): once its delay has been read
+// (ghost riSeen) the function returns with ok - it never goes on to report "no retry info"
+//@   modifies ghost riSeen
+//@   ghost@entry : riSeen = 0
+//@   ghost@call Duration.AsDuration#* : riSeen = 1
+//@   assert@return#1 : riSeen == 1
+//@   assert@return#2 : riSeen == 0
+//@   loop#1 invariant riSeen == 0
 
 // Exactly the documented retryable codes are retried; ResourceExhausted only when the server sent RetryInfo.
 //@ func retryableGRPCStatus(s *status.Status) (ok bool, d time.Duration)
+//@   modifies ghost riSeen
 //@   ensures (s.Code() == codes.Canceled || s.Code() == codes.DeadlineExceeded || s.Code() == codes.Aborted || s.Code() == codes.OutOfRange || s.Code() == codes.Unavailable || s.Code() == codes.DataLoss) ==> ok && d == snd(throttleDelay(s))
 //@   ensures s.Code() == codes.ResourceExhausted ==> ok == fst(throttleDelay(s)) && d == snd(throttleDelay(s))
 //@   ensures !(s.Code() == codes.Canceled || s.Code() == codes.DeadlineExceeded || s.Code() == codes.Aborted || s.Code() == codes.OutOfRange || s.Code() == codes.Unavailable || s.Code() == codes.DataLoss || s.Code() == codes.ResourceExhausted) ==> !ok && d == 0
